@@ -1,6 +1,7 @@
 import Grass.Diag
 import GrassProofs.Lemmas.DiagSpan
 import GrassProofs.Lemmas.DiagTrace
+import GrassProofs.Lemmas.DiagLoc
 /-
   C19 — Diagnostics are located, renderable and routed only through the Logger.
 
@@ -239,8 +240,7 @@ theorem C19_debug_warn_trace (fuel : Nat) (prog : List Stmts) (st : St)
     { debug := by intro st f l m h; simp [St.doDebug, Cfg.current, Event.key, h]
       warn := by intro st f l m h; simp [St.doWarn, Cfg.current, Event.key, h]
       skip := by intro st f l hc; simp [Cfg.current] at hc
-      defM := by intro st m d h; simpa [St.defMixin] using h
-      defF := by intro st f d h; simpa [St.defFunc] using h }
+      admin := by intro st st' h1 h2 _ h; rw [h1, h2]; exact h }
   have := run_preserves _ _ P (by simp [St.init]) fuel prog
   cases hr : run (Cfg.current false) fuel prog with
   | ok u st' => rw [hr] at this h; simp [Res.st?] at h; subst h; exact this
@@ -259,12 +259,12 @@ example : ((run (Cfg.current false) 50 exLoop).st?.map (fun st => st.log.map Eve
 /-- **A @warn in a @for loop is delivered once per iteration, with the loop variable's value at
     that iteration**: running `count` remaining iterations of a loop whose body is `@warn $x`
     appends exactly `count` warn events, in order, all with the directive's file and line. -/
-theorem C19_warn_in_loop_each_iteration (prog : List Stmts) (file x l : Nat) (env : Env)
+theorem C19_warn_in_loop_each_iteration (prog : List Stmts) (ctx : Ctx) (x l : Nat) (env : Env)
     (dir : Int) : ∀ (count fuel : Nat) (i : Int) (st : St), count + 4 ≤ fuel →
-    ∃ st', execFor (Cfg.current false) prog fuel file env x (.cons (.warn l (.var x)) .nil) i dir count st
+    ∃ st', execFor (Cfg.current false) prog fuel ctx env x (.cons (.warn l (.var x)) .nil) i dir count st
         = .ok () st' ∧
       st'.log = st.log ++ (List.range count).map
-        (fun (k : Nat) => (⟨.warn, file, l, intStr (i + dir * Int.ofNat k)⟩ : Event)) := by
+        (fun (k : Nat) => (⟨.warn, ctx.file, l, intStr (i + dir * Int.ofNat k)⟩ : Event)) := by
   intro count
   induction count with
   | zero =>
@@ -274,13 +274,13 @@ theorem C19_warn_in_loop_each_iteration (prog : List Stmts) (file x l : Nat) (en
   | succ count ih =>
     intro fuel i st hf
     obtain ⟨f, rfl⟩ : ∃ f, fuel = f + 4 := ⟨fuel - 4, by omega⟩
-    have hbody : execStmts (Cfg.current false) prog (f + 3) file ((x, .int i) :: env)
-        (.cons (.warn l (.var x)) .nil) st = .ok () (st.doWarn (Cfg.current false) file l (intStr i)) := by
+    have hbody : execStmts (Cfg.current false) prog (f + 3) ctx ((x, .int i) :: env)
+        (.cons (.warn l (.var x)) .nil) st = .ok () (st.doWarn (Cfg.current false) ctx.file l (intStr i)) := by
       rw [execStmts, execStmt]
       simp only [Cfg.current, Bool.false_and, Bool.false_eq_true, if_false]
       rw [evalExpr]
-      simp [lookupVar, inspect, logText, execStmts]
-    obtain ⟨st', h1, h2⟩ := ih (f + 3) (i + dir) (st.doWarn (Cfg.current false) file l (intStr i)) (by omega)
+      simp [lookupVar, logText, execStmts]
+    obtain ⟨st', h1, h2⟩ := ih (f + 3) (i + dir) (st.doWarn (Cfg.current false) ctx.file l (intStr i)) (by omega)
     refine ⟨st', ?_, ?_⟩
     · rw [show f + 4 = (f + 3) + 1 from rfl, execFor, hbody]
       exact h1
@@ -299,9 +299,9 @@ theorem C19_warn_in_loop_each_iteration (prog : List Stmts) (file x l : Nat) (en
         rw [hk, Int.mul_add, Int.mul_one]
         first | omega | ac_rfl
 
-example : ∃ st', execFor (Cfg.current false) [] 9 0 [] 0 (.cons (.warn 2 (.var 0)) .nil) 1 1 3 St.init
+example : ∃ st', execFor (Cfg.current false) [] 9 ⟨0, 0⟩ [] 0 (.cons (.warn 2 (.var 0)) .nil) 1 1 3 St.init
       = .ok () st' ∧ st'.log = [⟨.warn, 0, 2, ['1']⟩, ⟨.warn, 0, 2, ['2']⟩, ⟨.warn, 0, 2, ['3']⟩] := by
-  obtain ⟨st', h1, h2⟩ := C19_warn_in_loop_each_iteration [] 0 0 2 [] 1 3 9 1 St.init (by omega)
+  obtain ⟨st', h1, h2⟩ := C19_warn_in_loop_each_iteration [] ⟨0, 0⟩ 0 2 [] 1 3 9 1 St.init (by omega)
   exact ⟨st', h1, by rw [h2]; decide⟩
 
 /-- **With `quiet` nothing reaches the Logger** — neither @debug nor @warn, whatever the
@@ -313,8 +313,7 @@ theorem C19_quiet_silent (dedup : Bool) (fuel : Nat) (prog : List Stmts) (st : S
     { debug := by intro st f l m h; simpa [St.doDebug] using h
       warn := by intro st f l m h; simpa [St.doWarn] using h
       skip := by intro st f l _ h; simpa [St.skipWarn] using h
-      defM := by intro st m d h; simpa [St.defMixin] using h
-      defF := by intro st f d h; simpa [St.defFunc] using h }
+      admin := by intro st st' h1 _ _ h; rw [h1]; exact h }
   have := run_preserves _ _ P (by simp [St.init]) fuel prog
   cases hr : run { quiet := true, warnDedupBySpan := dedup } fuel prog with
   | ok u st' => rw [hr] at this h; simp [Res.st?] at h; subst h; exact this
@@ -325,6 +324,198 @@ theorem C19_quiet_silent (dedup : Bool) (fuel : Nat) (prog : List Stmts) (st : S
 -- non-vacuous: the quiet run of the example ends with a state in which four directives completed
 example : ((run (Cfg.current true) 50 exLoop).st?.map (fun st => (st.log.length, st.visited.length))) =
     some (0, 4) := by decide +kernel
+
+/-! ## Round 3: more of the language, and where the Logger is told the directive is
+
+  `C19_debug_warn_trace` and `C19_quiet_silent` above are statements about `run`, i.e. about every
+  program of the mini language — since round 3 that includes `@each`, the counting `@while` (nothing
+  bounds it but the fuel), `@use … as *` / `@forward` (module files run once), `@include` with a
+  content block and `@content`, `@import` nested in a style rule, and values `a b` whose two sides
+  both call functions that log. -/
+
+/-- **The location handed to the Logger is a real position of the file's text**: whenever the
+    directive `@name` at byte `site` has a value (`exprStart`: after the name, blanks, `//` and
+    `/* */` comments, over any number of lines, LF or CRLF, tabs and multi-byte characters before
+    it), the byte offset where the value begins is a character boundary inside the file, codemap's
+    look-up succeeds (no panic), and the (line, column) it yields — `eventLoc`, the pair the check
+    compares with grass's event — is one of the positions of the file's text. -/
+theorem C19_event_location_valid (file : List Char) (site : Nat) (name : List Char) (off : Nat)
+    (h : exprStart file site name = some off) :
+    isBoundary file off = true ∧ off ≤ byteLen file ∧
+    ∃ p, eventLoc file site name = some p ∧ (positions file).contains p = true := by
+  obtain ⟨t, ht, rfl⟩ := exprStart_tok file site name _ h
+  have hb := (tokenize0_inv file t ht).1
+  have hle := isBoundary_le file _ hb
+  have hs := lineColAux_isSome file t.pos 0 0 hb
+  cases hp : lineColAux file t.pos 0 0 with
+  | none => simp [hp] at hs
+  | some p =>
+    refine ⟨hb, hle, p, by simp [eventLoc, h, lookUpPos, hp], ?_⟩
+    have := lineColAux_mem _ _ _ _ _ hp
+    simp [positions, this]
+
+/-- `é` CR LF TAB `@debug /*ü*/` LF `1;` — the value `1` is on the third line (0-based 2), column 0. -/
+def exLocFile : List Char :=
+  ['é', '\r', '\n', '\t', '@', 'd', 'e', 'b', 'u', 'g', ' ', '/', '*', 'ü', '*', '/', '\n', '1', ';']
+
+example : exprStart exLocFile 5 ['d', 'e', 'b', 'u', 'g'] = some 19 ∧
+    eventLoc exLocFile 5 ['d', 'e', 'b', 'u', 'g'] = some (2, 0) := by decide +kernel
+
+/-- **A module file is executed when it is first loaded** (`@use … as *` or `@forward` of a later
+    file `k` not yet in the module cache): the outcome and what reached the Logger are those of
+    running the file's statements once, in the file's own context with an empty environment, and
+    the file is then in the cache. -/
+theorem C19_module_first_load (cfg : Cfg) (prog : List Stmts) (fuel : Nat) (ctx : Ctx) (env : Env)
+    (l k : Nat) (fw : Bool) (st st1 : St) (body : Stmts) (hk : ctx.mod < k)
+    (hl : st.loaded.contains k = false) (hb : prog[k]? = some body)
+    (hr : execStmts cfg prog fuel ⟨k, k⟩ [] body st = .ok () st1) :
+    ∃ st', execStmt cfg prog (fuel + 1) ctx env (.loadMod l k fw) st = .ok () st' ∧
+      st'.log = st1.log ∧ st'.visited = st1.visited ∧ st'.loaded.contains k = true := by
+  rw [execStmt]
+  simp only [Nat.not_le.mpr hk, if_false, hl, Bool.false_eq_true, hb, hr]
+  cases fw
+  · exact ⟨_, rfl, rfl, rfl, by simp [St.addVis, St.markLoaded]⟩
+  · exact ⟨_, rfl, rfl, rfl, by simp [St.addFwd, St.markLoaded]⟩
+
+/-- **… and never again**: `@use`/`@forward` of a file that is already in the module cache succeeds
+    without running anything — the log, the list of executed directives and the cache are unchanged
+    — whatever the file contains. -/
+theorem C19_module_loaded_once (cfg : Cfg) (prog : List Stmts) (fuel : Nat) (ctx : Ctx) (env : Env)
+    (l k : Nat) (fw : Bool) (st : St) (hk : ctx.mod < k) (hl : st.loaded.contains k = true) :
+    ∃ st', execStmt cfg prog (fuel + 1) ctx env (.loadMod l k fw) st = .ok () st' ∧
+      st'.log = st.log ∧ st'.visited = st.visited ∧ st'.loaded = st.loaded := by
+  rw [execStmt]
+  simp only [Nat.not_le.mpr hk, if_false, hl, if_true]
+  cases fw
+  · exact ⟨_, rfl, rfl, rfl, rfl⟩
+  · exact ⟨_, rfl, rfl, rfl, rfl⟩
+
+/-- main: `@use "p1" as *; @forward "p1"; @use "p2" as *; @debug 0;`  p1: `@use "p2" as *; @debug 1;`
+    p2: `@warn 2;` -/
+def exModules : List Stmts :=
+  [.cons (.loadMod 0 1 false) (.cons (.loadMod 1 1 true) (.cons (.loadMod 2 2 false) (.cons (.debug 3 (.int 0)) .nil))),
+   .cons (.loadMod 0 2 false) (.cons (.debug 1 (.int 1)) .nil),
+   .cons (.warn 0 (.int 2)) .nil]
+
+-- p2 is used twice and p1 used and forwarded: each ran once, innermost first
+example : ((run (Cfg.current false) 50 exModules).st?.map (fun st => (st.log.map Event.key, st.loaded))) =
+    some ([(.warn, 2, 0), (.debug, 1, 1), (.debug, 0, 3)], [1, 2]) := by decide +kernel
+
+/-- **`@each` delivers once per item, in order, with the item's text**: running
+    `@each $x in vals { @debug $x }` appends exactly one debug event per value of the list, in list
+    order, all with the directive's file and site, the message being the item as `@debug` prints
+    it (a string without its quotes). -/
+theorem C19_each_logs_every_item (prog : List Stmts) (ctx : Ctx) (x l : Nat) (env : Env) :
+    ∀ (vals : List Val) (fuel : Nat) (st : St), vals.length + 4 ≤ fuel →
+    ∃ st', execEach (Cfg.current false) prog fuel ctx env x (.cons (.debug l (.var x)) .nil) vals st
+        = .ok () st' ∧
+      st'.log = st.log ++ vals.map (fun v => (⟨.debug, ctx.file, l, logText v⟩ : Event)) := by
+  intro vals
+  induction vals with
+  | nil =>
+    intro fuel st hf
+    obtain ⟨f, rfl⟩ : ∃ f, fuel = f + 1 := ⟨fuel - 1, by simp at hf; omega⟩
+    exact ⟨st, by rw [execEach], by simp⟩
+  | cons v vs ih =>
+    intro fuel st hf
+    obtain ⟨f, rfl⟩ : ∃ f, fuel = f + 4 := ⟨fuel - 4, by simp at hf; omega⟩
+    have hbody : execStmts (Cfg.current false) prog (f + 3) ctx ((x, v) :: env)
+        (.cons (.debug l (.var x)) .nil) st = .ok () (st.doDebug (Cfg.current false) ctx.file l (logText v)) := by
+      rw [execStmts, execStmt]
+      simp only [Cfg.current, Bool.false_eq_true, if_false]
+      rw [evalExpr]
+      simp [lookupVar, execStmts]
+    obtain ⟨st', h1, h2⟩ := ih (f + 3) (st.doDebug (Cfg.current false) ctx.file l (logText v))
+      (by simp at hf; omega)
+    refine ⟨st', ?_, ?_⟩
+    · rw [show f + 4 = (f + 3) + 1 from rfl, execEach, hbody]
+      exact h1
+    · rw [h2]
+      simp [St.doDebug, Cfg.current]
+
+example : ∃ st', execEach (Cfg.current false) [] 9 ⟨0, 0⟩ [] 0 (.cons (.debug 2 (.var 0)) .nil)
+      [.int 1, .str 2, .int 5] St.init = .ok () st' ∧
+    st'.log = [⟨.debug, 0, 2, ['1']⟩, ⟨.debug, 0, 2, ['s', '2']⟩, ⟨.debug, 0, 2, ['5']⟩] := by
+  obtain ⟨st', h1, h2⟩ := C19_each_logs_every_item [] ⟨0, 0⟩ 0 2 [] [.int 1, .str 2, .int 5] 9 St.init (by decide)
+  exact ⟨st', h1, by rw [h2]; decide⟩
+
+/-- **The counting `@while` delivers once per iteration, with the counter's value at that
+    iteration**: if the condition `$x < bound` holds for the first `n` values `i, i + step, …` of
+    the counter and fails for the next one, then running `@while $x < bound { @warn $x; $x: $x +
+    step }` appends exactly `n` warn events, in order, with the directive's file and site (`step`
+    may be any integer; with fuel for `n` iterations the loop ends normally). -/
+theorem C19_while_logs_every_iteration (prog : List Stmts) (ctx : Ctx) (x l : Nat) (env : Env)
+    (bound step : Int) : ∀ (n fuel : Nat) (i : Int) (st : St), n + 4 ≤ fuel →
+    (∀ k : Nat, k < n → i + step * Int.ofNat k < bound) → ¬ (i + step * Int.ofNat n < bound) →
+    ∃ st', execWhile (Cfg.current false) prog fuel ctx env x (.cons (.warn l (.var x)) .nil) i bound step st
+        = .ok () st' ∧
+      st'.log = st.log ++ (List.range n).map
+        (fun (k : Nat) => (⟨.warn, ctx.file, l, intStr (i + step * Int.ofNat k)⟩ : Event)) := by
+  intro n
+  induction n with
+  | zero =>
+    intro fuel i st hf _ hstop
+    obtain ⟨f, rfl⟩ : ∃ f, fuel = f + 1 := ⟨fuel - 1, by omega⟩
+    have hstop' : ¬ (i < bound) := by simpa using hstop
+    exact ⟨st, by rw [execWhile]; simp [hstop'], by simp⟩
+  | succ n ih =>
+    intro fuel i st hf hall hstop
+    obtain ⟨f, rfl⟩ : ∃ f, fuel = f + 4 := ⟨fuel - 4, by omega⟩
+    have h0 : i < bound := by simpa using hall 0 (by omega)
+    have hbody : execStmts (Cfg.current false) prog (f + 3) ctx ((x, .int i) :: env)
+        (.cons (.warn l (.var x)) .nil) st = .ok () (st.doWarn (Cfg.current false) ctx.file l (intStr i)) := by
+      rw [execStmts, execStmt]
+      simp only [Cfg.current, Bool.false_and, Bool.false_eq_true, if_false]
+      rw [evalExpr]
+      simp [lookupVar, logText, execStmts]
+    have hshift : ∀ k : Nat, i + step + step * Int.ofNat k = i + step * Int.ofNat (k + 1) := by
+      intro k
+      have hk : Int.ofNat (k + 1) = Int.ofNat k + 1 := rfl
+      rw [hk, Int.mul_add, Int.mul_one]
+      omega
+    obtain ⟨st', h1, h2⟩ := ih (f + 3) (i + step) (st.doWarn (Cfg.current false) ctx.file l (intStr i)) (by omega)
+      (fun k hk => by rw [hshift]; exact hall (k + 1) (by omega))
+      (by rw [hshift]; exact hstop)
+    refine ⟨st', ?_, ?_⟩
+    · rw [show f + 4 = (f + 3) + 1 from rfl, execWhile]
+      simp only [h0, if_true, hbody]
+      exact h1
+    · rw [h2]
+      simp only [St.doWarn, Cfg.current, Bool.false_eq_true, if_false, List.append_assoc]
+      congr 1
+      rw [List.range_succ_eq_map]
+      simp only [List.map_cons, List.map_map, List.cons_append, List.nil_append]
+      congr 1
+      · simp
+      · apply List.map_congr_left
+        intro k _
+        simp only [Function.comp]
+        congr 2
+        exact hshift k
+
+-- `$x: 0; @while $x < 3 { @warn $x; $x: $x + 2 }` : two iterations, 0 and 2
+example : ∃ st', execWhile (Cfg.current false) [] 9 ⟨0, 0⟩ [] 0 (.cons (.warn 2 (.var 0)) .nil) 0 3 2 St.init
+      = .ok () st' ∧ st'.log = [⟨.warn, 0, 2, ['0']⟩, ⟨.warn, 0, 2, ['2']⟩] := by
+  obtain ⟨st', h1, h2⟩ := C19_while_logs_every_iteration [] ⟨0, 0⟩ 0 2 [] 3 2 2 9 0 St.init (by omega)
+    (by intro k hk; have : k = 0 ∨ k = 1 := by omega
+        rcases this with rfl | rfl <;> decide) (by decide)
+  exact ⟨st', h1, by rw [h2]; decide⟩
+
+/-- **`@error` reports the inspected value**: when the value of an `@error` evaluates to `v`, the
+    statement fails with the message `inspect v` (strings keep their quotes, the two sides of a
+    list `a b` are separated by one space) at the directive's file and site, and the rendering of
+    that error starts with `Error: ` followed by exactly that text, in both modes. -/
+theorem C19_error_reports_inspected_value (cfg : Cfg) (prog : List Stmts) (fuel : Nat) (ctx : Ctx)
+    (env : Env) (l : Nat) (e : Expr) (st st1 : St) (v : Val)
+    (h : evalExpr cfg prog fuel ctx l env e st = .ok v st1) :
+    execStmt cfg prog (fuel + 1) ctx env (.error l e) st = .err (.user ctx.file l (inspect v)) st1 ∧
+    ∀ (unicode : Bool) (loc : RenderLoc), ∃ rest,
+      render unicode (inspect v) loc = errorPrefix ++ inspect v ++ ['\n'] ++ rest := by
+  refine ⟨by rw [execStmt, h], fun u loc => C19_render_prefix u _ loc⟩
+
+example : (match execStmt (Cfg.current false) [] 3 ⟨0, 0⟩ [] (.error 7 (.pair (.str 1) (.int 2))) St.init with
+    | .err (.user f l m) _ => some (f, l, m)
+    | _ => none) = some (0, 7, ['"', 's', '1', '"', ' ', '2']) := by decide +kernel
 
 /-! ## As-found witnesses (kernel-checked) -/
 
